@@ -470,6 +470,12 @@ def e13_bad_enum(tree, pts, ins, pick):
         else:
             e["values"].append({"name": e["values"][0]["name"], "ord": max(v["ord"] for v in e["values"]) + 1})
     elif mode == "non_numeric_type":
+        if pick([0, 1, 2]) == 0:
+            # an enum without members still needs a numeric underlying type
+            structs = [x["name"] for (dd, x) in _types(tree, "struct") if dd == ""]
+            bad = pick(["string", "bool", "blob"] + structs[:1])
+            tree["files"].setdefault("", []).append({"kind": "enum", "name": "ZzPlaceholder", "type": bad, "values": []})
+            return "non_numeric_type_memberless@root"
         e["type"] = pick(["string", "bool", "blob", "Nonexistent"])
     elif mode == "self_type":
         e["type"] = e["name"]
